@@ -1,2 +1,87 @@
-From ZC Require Import Model.Base Model.Node.
-Example C07_placeholder : True. Proof. exact I. Qed.
+(* C07 - end-to-end discovery converges to the set of registered services. Statements only.
+   The property is a statement about several instances and a lossy link; it is decided in two halves.
+   (a) Here: the redundancy argument the property rests on, over the models of the sender (Model/Node.v announcement and goodbye tasks),
+       of the link (Model/Link.v: per-copy delays of 0..100 ms, reordering, duplication, loss) and of the receiving cache
+       (Model/Ingest.v); with C04_live (a browser reports exactly the pointers its cache holds) and C18 for the lookup.
+   (b) props/c07.py: 2-5 real instances on a simulated link, every single delivery dropped in turn (see DESIGN.md II.4b).
+   Vocabulary (Proofs/C07_recv.v, C07_send.v, C07_net.v, C07_link.v): knows c t s = the cache holds an unexpired pointer type -> name of s;
+   Recv c s = cache invariant + every cached record that looks like the pointer of s is that pointer (exact spelling, class IN);
+   announce_msgs s a = the three announcements at a, a+225, a+450; goodbye_msgs G g1 g2 g3; fate_ok = delays within 0..100;
+   losses = number of messages of which no copy arrives; arrival_ok = a decoded datagram that is an announcement of s, a goodbye of s
+   or unrelated to it; svc_ok = TTLs in range (0 < other_ttl < 2^32). *)
+From ZC Require Import Model.Base Model.PyRec Model.Dict Model.Cache Model.Ingest Model.Respond Model.Register Model.Node Model.Link
+  Model.Query Model.Info Gen.Const Gen.DnsPure Spec.CacheSpec Spec.AnswerSpec
+  Proofs.C07_recv Proofs.C07_send Proofs.C07_net Proofs.C07_lookup Proofs.C07_link.
+
+(* of three copies with at most one lost, two arrive - each within 100 ms of being sent *)
+Theorem C07_one_loss_two_arrive : forall m1 m2 m3 f1 f2 f3, fate_ok f1 -> fate_ok f2 -> fate_ok f3 -> (losses [f1; f2; f3] <= 1)%nat ->
+  let arr := arrives [m1; m2; m3] [f1; f2; f3] in (arr m1 /\ arr m2) \/ (arr m1 /\ arr m3) \/ (arr m2 /\ arr m3).
+Proof. exact one_loss_two_arrive. Qed.
+
+(* the receiving cache: the last arrival that mentions the instance decides whether it is known *)
+Theorem C07_last_arrival_wins : forall c s ttl l t', Recv c s -> 0 < ttl -> Forall (arrival_ok s ttl) l ->
+  (forall t recs, last_mention s l = Some (t, recs) -> announces s recs = true -> t' < t + 1000 * ttl) ->
+  knows (receive_all c l) t' s = match last_mention s l with None => knows c t' s | Some (t, recs) => announces s recs end.
+Proof. exact last_arrival_wins_partial. Qed.
+
+(* what the sender's announcement task puts on the wire *)
+Theorem C07_sender : forall n id s a, n_done n = false -> d_get Z.eqb (n_tasks n) id = Some (announce_task s) ->
+  wmsgs_of (concat (nrun n [LBcast id a; LBcast id (a + 225); LBcast id (a + 450)])) = announce_msgs s a.
+Proof. exact announce_task_sends. Qed.
+
+(* registration: whatever the delays, duplicates and reordering, and whichever single copy is lost, 550 ms after the first announcement
+   every receiver knows the instance (and keeps knowing it for the pointer's TTL) *)
+Theorem C07_announcements_converge : forall c s a fates t', Recv c s -> svc_ok s ->
+  length fates = 3%nat -> Forall fate_ok fates -> (losses fates <= 1)%nat -> a + 550 <= t' < a + 1000 * s_other_ttl s ->
+  knows (receive_all c (deliveries (announce_msgs s a) fates)) t' s = true.
+Proof. exact announcements_converge_partial. Qed.
+
+(* withdrawal: when the goodbyes do not overlap the announcements, one lost copy among the six leaves every receiver without the instance *)
+Theorem C07_withdrawal_converges : forall c s a g b fates t', Recv c s -> svc_ok s -> a + 450 + 100 < g ->
+  length fates = 6%nat -> Forall fate_ok fates -> (losses fates <= 1)%nat -> g + 350 <= t' ->
+  knows (receive_all c (deliveries (announce_msgs s a ++ goodbye_msgs (broadcast_records s (Some 0) b) g (g+125) (g+250)) fates)) t' s = false.
+Proof. exact withdrawal_converges_partial. Qed.
+
+(* the same for the single goodbye message of a closing instance (all its services in one message, three times) *)
+Theorem C07_close_converges : forall c reg s a g fates t', Recv c s -> svc_ok s -> RegInv reg -> In s (all_services reg) ->
+  a + 450 + 100 < g -> length fates = 6%nat -> Forall fate_ok fates -> (losses fates <= 1)%nat -> g + 350 <= t' ->
+  knows (receive_all c (deliveries (announce_msgs s a ++ goodbye_msgs (snd (unregister_all reg)) g (g+125) (g+250)) fates)) t' s = false.
+Proof. exact close_converges_partial. Qed.
+
+(* every cache reached through well-formed arrivals satisfies the receiver hypothesis *)
+Theorem C07_receiver_hypothesis_reachable : forall s ttl l, 0 < ttl -> Forall (arrival_ok s ttl) l -> Recv (receive_all empty_cache l) s.
+Proof. exact recv_history. Qed.
+
+(* the lookup made from the Added callback: a batch that contains the SRV record of the instance and an address record of its host
+   completes the lookup whatever their order in the packet (the C07 repair; C18 gives the rest of the lookup's behaviour) *)
+Theorem C07_lookup_batch_order : forall c1 now r news srv adr h,
+  rq_done r = None -> In srv news -> p_kind srv = KService -> DNSRecord_is_expired srv now = false ->
+  lower (p_name srv) = si_key (rq_info r) -> p_server srv = h ->
+  In adr news -> p_kind adr = KAddress -> DNSRecord_is_expired adr now = false -> lower (p_name adr) = lower h ->
+  (length (p_address adr) = 4%nat \/ length (p_address adr) = 16%nat) ->
+  (forall x, In x news -> p_kind x = KService -> lower (p_name x) = si_key (rq_info r) -> lower (p_server x) = lower h) ->
+  let i' := rq_info (fst (request_update c1 now r news)) in
+  is_complete i' = true /\ (length (p_address adr) = 4%nat -> In (p_address adr) (si_v4 i')) /\
+  (length (p_address adr) = 16%nat -> In (p_address adr) (si_v6 i')).
+Proof. exact batch_order_irrelevant. Qed.
+
+(* the recorded finding C07-withdrawal-during-broadcast as a refutation of the statement without the no-overlap hypothesis: unregistered
+   50 ms after the first announcement, one copy lost, every other hypothesis met - the instance stays known for its whole TTL *)
+Example C07_overlap_refuted :
+  let fates := [[0]; [0]; [0]; []; [0]; [0]] in
+  let l := deliveries (announce_msgs ex_svc 0 ++ goodbye_msgs (broadcast_records ex_svc (Some 0) true) 50 175 300) fates in
+  length fates = 6%nat /\ losses fates = 1%nat /\ forallb (forallb (fun d => (0 <=? d) && (d <=? 100))) fates = true /\
+  map fst l = [0; 175; 225; 300; 450] /\
+  knows (receive_all empty_cache l) 400 ex_svc = true /\ knows (receive_all empty_cache l) 4000000 ex_svc = true.
+Proof. exact withdrawal_overlap_counterexample. Qed.
+
+(* the pinned tree's lookup processed a batch in packet order: address before SRV does not complete, SRV before address does *)
+Example C07_packet_order_refuted :
+  is_complete (fst (process_records empty_cache 1000 (sinfo_init ex_name) [ex_adr; ex_srv])) = false /\
+  is_complete (fst (process_records empty_cache 1000 (sinfo_init ex_name) [ex_srv; ex_adr])) = true.
+Proof. exact packet_order_fails. Qed.
+
+Print Assumptions C07_one_loss_two_arrive. Print Assumptions C07_last_arrival_wins. Print Assumptions C07_sender.
+Print Assumptions C07_announcements_converge. Print Assumptions C07_withdrawal_converges. Print Assumptions C07_close_converges.
+Print Assumptions C07_receiver_hypothesis_reachable. Print Assumptions C07_lookup_batch_order. Print Assumptions C07_overlap_refuted.
+Print Assumptions C07_packet_order_refuted.
